@@ -6,7 +6,7 @@ TECHNIQUE = "Lean 4 theorems over an executable simulator model (any policy = de
 
 
 def run(chk: common.Check):
-    e2e.run_suite(chk, "C02", streams=("regular", "dag", "batch", "retime"))
+    e2e.run_suite(chk, "C02", streams=("regular", "dag", "batch", "retime", "malformed"))
 
 
 def replay(path) -> int:
